@@ -71,11 +71,25 @@ func child() {
 
 const readTimeout = 400 * time.Millisecond
 
+func envInt(k string, d int) int {
+	if v, err := strconv.Atoi(os.Getenv(k)); err == nil {
+		return v
+	}
+	return d
+}
+
+var (
+	resetInstances = envInt("VF_RESET_INST", 16)    // connections running the blocked-write reset script
+	resetReadOnMs  = envInt("VF_RESET_READON", 100) // ms between the reset and the client reading on
+	smallWin       = envInt("VF_SMALLWIN", 0) == 1
+	bystanders     = envInt("VF_BYSTANDERS", 32)
+)
+
 func patternAt(i int) byte { return byte(i ^ i>>8 ^ i>>16 ^ 0x5a) }
 
 // stall scripts: a client that stops at a particular point and stays; the server's timers (handshake, read, idle) fire on
 // their own goroutines, where no per-connection recover reaches
-var stallScripts = []string{"h2-reset-blocked-write", "h2-reset-blocked-write", "h2-reset-blocked-write", "h2-reset-blocked-write", "h2-reset-blocked-write", "h2-reset-blocked-write", "h2-reset-blocked-write", "h2-reset-blocked-write", "h2-window0-get", "h2-half-post", "h2-preface-only", "h2-settings-only", "h1-partial-line", "h1-partial-body", "h1-unread-response", "tls-partial-hello", "h2-rst-then-idle"}
+var stallScripts = []string{"h2-reset-blocked-write", "h2-window0-get", "h2-half-post", "h2-preface-only", "h2-settings-only", "h1-partial-line", "h1-partial-body", "h1-unread-response", "tls-partial-hello", "h2-rst-then-idle"}
 
 func stall(addr, script string) (net.Conn, error) {
 	if script == "tls-partial-hello" {
@@ -106,7 +120,7 @@ func stall(addr, script string) (net.Conn, error) {
 		tc.Write(h2raw.Headers(1, true, h2raw.Block([]h2raw.HF{{":method", "GET"}, {":scheme", "https"}, {":authority", "vf.test"}, {":path", "/big/50331648"}}), nil, 0))
 		time.Sleep(300 * time.Millisecond)
 		tc.Write(h2raw.RST(1, 8))
-		time.Sleep(20 * time.Millisecond)
+		time.Sleep(time.Duration(resetReadOnMs) * time.Millisecond)
 		go io.Copy(io.Discard, tc) // ... and reads on
 		return tc, nil
 	}
@@ -243,13 +257,19 @@ func runStalls(ch *Child, only string) error {
 		if only != "" && sc != only {
 			continue
 		}
-		c, err := stall(ch.addr, sc)
-		if err != nil {
-			close(stop)
-			<-byErr
-			return fmt.Errorf("stall script %s could not start: %v", sc, err)
+		times := 1
+		if sc == "h2-reset-blocked-write" {
+			times = resetInstances
 		}
-		held = append(held, c)
+		for k := 0; k < times; k++ {
+			c, err := stall(ch.addr, sc)
+			if err != nil {
+				close(stop)
+				<-byErr
+				return fmt.Errorf("stall script %s could not start: %v", sc, err)
+			}
+			held = append(held, c)
+		}
 	}
 	time.Sleep(5 * readTimeout)
 	close(stop)
@@ -365,8 +385,8 @@ func control(addr string) error {
 // what another client did before must not show in what they receive
 func integrity(addr string) error {
 	const n = 300000
-	errs := make(chan error, 16)
-	for i := 0; i < 12; i++ {
+	errs := make(chan error, bystanders)
+	for i := 0; i < bystanders; i++ {
 		go func(i int) {
 			var body []byte
 			if i%3 == 0 {
@@ -397,7 +417,13 @@ func integrity(addr string) error {
 				defer tc.Close()
 				tc.SetDeadline(time.Now().Add(20 * time.Second))
 				tc.Write([]byte(h2raw.Preface))
-				tc.Write(h2raw.Settings())
+				if i%3 == 1 && smallWin {
+					// a client with a small window: its DATA waits in the server's queue most of the time (whatever the server still refers to
+					// while it waits must stay as the handler wrote it)
+					tc.Write(h2raw.Settings(h2raw.Setting{ID: 4, Val: 3000}))
+				} else {
+					tc.Write(h2raw.Settings())
+				}
 				hc := h2raw.NewConn(tc)
 				tc.Write(h2raw.Headers(1, true, h2raw.Block([]h2raw.HF{{":method", "GET"}, {":scheme", "https"}, {":authority", "vf.test"}, {":path", fmt.Sprintf("/big/%d", n)}}), nil, 0))
 				if err := hc.WaitStreams(1); err != nil {
@@ -424,7 +450,7 @@ func integrity(addr string) error {
 		}(i)
 	}
 	var first error
-	for i := 0; i < 12; i++ {
+	for i := 0; i < bystanders; i++ {
 		if err := <-errs; err != nil && first == nil {
 			first = err
 		}
@@ -545,6 +571,28 @@ func main() {
 		return
 	}
 	if err := control(ch.addr); err != nil {
+		// before any abuse: ordinary clients alone.  A body that arrives altered or short is a finding in itself (one ordinary connection
+		// disturbing another); anything else (dial errors, ...) is the harness's problem
+		content := func(e error) bool { return e != nil && (strings.Contains(e.Error(), "octet")) }
+		e2 := err
+		for try := 0; try < 3 && !content(e2); try++ {
+			e2 = control(ch.addr)
+		}
+		if content(e2) {
+			s2 := ch.stderr.String()
+			if len(s2) > 1500 {
+				s2 = s2[:1500]
+			}
+			report["killers"] = []map[string]any{{"frame_type": "ORDINARY", "mode": "concurrent ordinary downloads, no abuse at all", "open_header_block_on": 0, "bytes": "", "len": 0,
+				"effect": e2.Error(), "child_stderr_head": s2}}
+			report["outcomes"] = map[string]int{}
+			report["control_rounds"] = 0
+			report["connections"] = 0
+			b, _ := json.Marshal(report)
+			os.WriteFile(reportPath, b, 0o644)
+			ch.stop()
+			return
+		}
 		report["error"] = "control before: " + err.Error()
 	}
 	const P = 8
